@@ -152,6 +152,22 @@ class IMAPCommand(StrEnum):
     UNSUBSCRIBE = "unsubscribe"
 
 
+# Commands that read or change the messages of a mailbox.
+#
+_MESSAGE_COMMANDS = frozenset(
+    (
+        IMAPCommand.APPEND,
+        IMAPCommand.CHECK,
+        IMAPCommand.COPY,
+        IMAPCommand.EXPUNGE,
+        IMAPCommand.FETCH,
+        IMAPCommand.MOVE,
+        IMAPCommand.SEARCH,
+        IMAPCommand.STORE,
+    )
+)
+
+
 #######################################################################
 #
 class StatusAtt(StrEnum):
@@ -476,7 +492,16 @@ class IMAPClientCommand:
             await self.ready.wait()
             if self.error is not None:
                 raise self.error
-            if mbox.deleted:
+            # NOTE: `\Noselect` as well, for commands that work on the
+            #       messages of a mailbox: while we were waiting in the queue
+            #       a DELETE may have turned the mailbox into a placeholder for
+            #       its children (its `deleted` flag is not set then.) It has
+            #       no messages and takes none.
+            #
+            if mbox.deleted or (
+                self.command in _MESSAGE_COMMANDS
+                and r"\Noselect" in mbox.attributes
+            ):
                 from .mbox import NoSuchMailbox
 
                 raise NoSuchMailbox(
